@@ -62,6 +62,19 @@ CLAIMED["C19"] = (
     "validates each recorded trace, including after save/reopen.",
     "TLC/SANY; name tokens instantiated with fixed concrete strings; Python str.lower() as the meaning of 'ignoring case'",
     "DESIGN.md §4 C19")
+CLAIMED["C12"] = (
+    "TLC model checking of Merges.tla (grid + set of rectangles, all rectangles and disjoint pairs of a 3x3 area, edits, save/reopen); every "
+    "maximal bounded TLC behaviour replayed into real tables with the merge picture recorded after every call and at every save from the "
+    "reopened file; traces judged by TLC (Trace_Merges)",
+    "Merges.tla derives the picture the API must report (anchor with size, placeholders with their rectangle and no value, list of ranges, "
+    "untouched cells outside) from a set of rectangles; TLC checks well-formedness, that merging leaves outside cells untouched and that "
+    "non-cutting edits only move rectangles. All maximal behaviours (merge single/list, writes, row/column insertion/deletion before, inside, "
+    "after, save, reopen) plus edge placements on 5x6..12x9, 1xN, Nx1 tables and every fixture table with merges are recorded from the real "
+    "library and validated by TLC: exact picture after merge/write/save/reopen, picture of the reopened file equal to the open one at every "
+    "save, self-consistency after structural edits.",
+    "TLC/SANY; writing into a placeholder and overlapping merges are not generated; where rectangles move is Level B (DRIFT); edits cutting "
+    "through a rectangle are a recorded known finding (F8b)",
+    "DESIGN.md §4 C12")
 NOT_YET = "check not built yet in this round (planned: see DESIGN.md section for this property)"
 NA = {}
 
